@@ -445,6 +445,12 @@ def eval_solid(ctx, case):
         if not ctx.close_enough(so["M"], sp[4], Ls):
             ctx.fail("ConvexSpheropolyhedron.mean_curvature:steiner", "mean curvature differs from M + r", case,
                      [r, so["M"], sp[4]])
+        iq_want = 36 * math.pi * sp[2] ** 2 / sp[3] ** 3
+        if not ctx.close_enough(so["iq"], iq_want, 1.0):
+            ctx.fail("ConvexSpheropolyhedron.iq:value", "iq of the rounded solid differs from 36 pi V^2 / S^3 of the "
+                     "Steiner volume and area", case, [r, so["iq"], iq_want])
+        if not (0 < so["iq"] <= 1 + 1e-9):
+            ctx.fail("ConvexSpheropolyhedron.iq:range", "isoperimetric quotient outside (0, 1]", case, [r, so["iq"]])
         if not (ctx.close_enough(sp[2], sp[5], Ls ** 3) and ctx.close_enough(sp[3], sp[6], Ls ** 2)):
             ctx.obligation_breaks.append({"kind": "Spec/Steiner.lean: stated (M) and classical (H) Steiner polynomials "
                                                   "differ numerically", "detail": [r, sp]})
@@ -612,8 +618,8 @@ def eval_case(ctx, case):
 
 
 def run(ctx):
-    n3 = ctx.budget(110, 1200)
-    n2 = ctx.budget(300, 4000)
+    n3 = ctx.budget(110, 3000)
+    n2 = ctx.budget(300, 8000)
     for _ in range(n3):
         case = make_solid_case(ctx.rng, ctx)
         ctx.case(case)
